@@ -153,12 +153,23 @@ func runOneOpt(w *tr.Writer, L *Lang, input []byte, logInput bool, gen tr.E, fol
 		if L.TokenLvl && al && hi <= n {
 			// edits: where the token differs from the pristine input
 			ed := map[string]bool{}
+			vlo, vhi := -1, -1
+			if v, ok := r.subs["val"]; ok && len(v) > 0 {
+				if a, l2, h2 := where(v, base, n+1); a {
+					vlo, vhi = l2, h2
+				}
+			}
+			inVal := func(i int) bool { return i >= vlo && i < vhi }
 			for i := lo; i < hi; i++ {
 				a, b := input[i], r.data[i-lo]
 				switch {
 				case a == b:
 				case a >= 'A' && a <= 'Z' && b == a+('a'-'A'):
-					ed["lower"] = true
+					if inVal(i) {
+						ed["other"] = true // case changed inside an attribute value
+					} else {
+						ed["lower"] = true
+					}
 				case (a == '\t' || a == '\n' || a == '\r') && b == ' ':
 					ed["ws2sp"] = true
 				default:
